@@ -76,6 +76,18 @@ package setec
 //@   ensures [C05,C13 filecache.atomic-0600] err == nil ==> disk == diskWrite(old(disk), str(f), bytes(data), 384)
 //@   ensures [C13 filecache.fail-keeps-old] err != nil ==> disk == old(disk)
 
+//@ func (FileCache).Read(f) (b, err)
+//@   ensures [C13 filecache.reads-the-file] err == nil ==> (diskHas(disk, str(f)) && bytes(b) == diskData(disk, str(f)))
+//@   ensures [C13 filecache.read-only] disk == old(disk)
+//@ func NewMemCache(s) (m)
+//@   ensures [C13 memcache.initial] m != nil && fresh(m) && bytes(m.data) == s
+//@ func (*MemCache).Write(m, data) (err)
+//@   requires m != nil
+//@   ensures [C13 memcache.holds-last-write] err == nil && bytes(m.data) == bytes(data) && len(m.data) == len(data)
+//@ func (*MemCache).Read(m) (b, err)
+//@   requires m != nil
+//@   ensures [C13 memcache.returns-held] err == nil && bytes(b) == bytes(m.data) && len(b) == len(m.data) && m.data == old(m.data)
+
 // ---- lookups -------------------------------------------------------------------------------
 //@ func (*Store).lookupSecretInternal$1() (v, err)
 //@   requires storeInv(s) && !s.active.Mutex && ctx != nil && s.client != nil
